@@ -56,9 +56,55 @@ def make_world(ex, shape, real):
 _MS = MethodSet([dict(pos=[("x", e[0], False)] + (e[4] if len(e) > 4 else []), body=e[2], closure=(e[3] if len(e) > 3 else None)) for e in POOL])
 
 
+_SELF_MS = MethodSet([
+    dict(pos=[("x", ("raw", "list"), False)], body="return [recurse(a) for a in x]", selfarg=True),
+    dict(pos=[("x", ("type", ("K", 0)), False)], body="return ('typeleaf', 1)", selfarg=True),
+    dict(pos=[("x", ("K", 0), False)], body="return ('leaf', 2)", selfarg=True),
+    dict(pos=[("x", ("obj",), False)], body="return ('leaf', 3)", selfarg=True),
+    dict(pos=[("x", ("raw", "tuple"), False)], body="return tuple(call_next(a) if False else recurse(a) for a in x)", selfarg=True),
+])
+
+
+def make_run_self(W, shape):
+    """methods that take self (an Ovld used as a descriptor on a plain class, optionally through a copy / a variant): recurse on an element is
+    the bound call on that element -- for instances AND for classes (a type[...] leaf makes the position type-aware)"""
+    from ovld import Ovld
+
+    def run(ctx):
+        hs, LOG, ns = _SELF_MS.instantiate(W)
+        ov = Ovld()
+        for m in shape["methods"]:
+            ov.register(hs[m], priority=(-1 if m == 3 else 0))
+        if shape.get("derive") == "copy":
+            ov = ov.copy()
+        elif shape.get("derive") == "variant":
+            ov = ov.variant(hs[3], priority=-1) if 3 not in shape["methods"] else ov.copy(linkback=True)
+        Holder = type("Holder", (), {"f": ov})
+        h = Holder()
+        ok, trace = True, []
+        for name, e in (("K0", W.K[0]), ("K1", W.K[1]), ("K0()", W.inst[0]), ("object()", object())):
+            direct = full_outcome(lambda: h.f(e), LOG)
+            for wrap_name, wrap, fmt in (("[e]", lambda v: [v], "[{}]"), ("(e,)", lambda v: (v,), "({},)")):
+                if wrap_name == "(e,)" and 4 not in shape["methods"]:
+                    continue
+                nested = full_outcome(lambda: h.f(wrap(e)), LOG)
+                entered = nested[0][:1] in ([0], [4])
+                same = (nested[1] == ["ret", fmt.format(direct[1][1])]) if direct[1][0] == "ret" else (nested[1][0] != "ret")
+                trace.append(dict(element=name, container=wrap_name, direct=direct, nested=nested))
+                if entered and not same:
+                    ok = False
+                if not all(en[3] is h for en in LOG):
+                    ok = False
+        return Verdict(ok, (), dict(family="methods with self", methods=shape["methods"], derive=shape.get("derive"), trace=trace), ["self"], nontrivial=True)
+
+    return run
+
+
 def make_run(W, shape, known_active=None):
     from ovld import Ovld
 
+    if shape.get("selffam"):
+        return make_run_self(W, shape)
     ops = shape["ops"]
 
     def inputs():
@@ -259,6 +305,8 @@ def gen_shapes(tier, seed):
     fam.append([["new", [11, 3, 5]], ["variant", 0, 4, False]])
     N = 420 if tier == "quick" else 8000
     shapes = [dict(n=3, ops=h) for h in fam]
+    shapes += [dict(n=3, selffam=True, methods=ms_, derive=dv, ops=[]) for ms_ in ([0, 1, 2, 3], [0, 1, 3], [0, 2, 3], [0, 4, 1, 2, 3], [0, 1, 2])
+               for dv in (None, "copy", "variant")]
     for _ in range(N):
         shapes.append(dict(n=3, ops=gen_graph(rng, rng.choice((3, 4, 5, 6)))))
     return shapes, len(shapes), True
